@@ -101,13 +101,17 @@ Definition num_frags_and_frag_size (dmax payload_sz : Z) : res (Z * Z) :=
   else Ok (data_size / fragment_size + (if data_size mod fragment_size =? 0 then 0 else 1),
            fragment_size mod 2 ^ 16).
 
+(* Data::write_to pads the serialized payload with zeros to a multiple of 4 (DataFrag::write_to
+   does not pad) *)
+Definition pad4 (l : bytes) : bytes := l ++ repeat 0 (Z.to_nat ((4 - len l mod 4) mod 4)).
+
 (* Writer::send_cache_change, payload part: what goes on the wire for one sample.
    Some bytes = one DATA submessage carrying the whole SerializedPayload; otherwise DATAFRAGs for
    frag_num in 1..=num_frags.  `data_size.try_into().unwrap()` (usize -> u32) panics above 2^32. *)
 Definition send_cache_change (dmax : Z) (sp : spayload) (sn : Z)
   : res (option bytes * list datafrag) :=
   let data_size := payload_size sp in
-  if data_size <=? dmax then Ok (Some (hv sp), [])
+  if data_size <=? dmax then Ok (Some (pad4 (hv sp)), [])
   else
     nf <- num_frags_and_frag_size dmax data_size ;;
     sample_size <- (if data_size <? 2 ^ 32 then Ok data_size else Panic) ;;
@@ -521,7 +525,7 @@ Definition obs_eqb (a b : obs) : bool :=
 (* Property oracle: looks at inputs and observed outputs only.
 
    CSplit: a sample not larger than the fragment size goes out as one DATA with exactly the
-     bytes written; a larger one as DATAFRAGs numbered 1..n, one fragment each, every fragment
+     bytes written (followed by fewer than 4 bytes of alignment padding); a larger one as DATAFRAGs numbered 1..n, one fragment each, every fragment
      announcing data_size = |header ++ value| and the writer's fragment size, every fragment but
      the last exactly fragment-size long, the last one non-empty and not longer, and the
      concatenation of the fragments is exactly header ++ value.
@@ -556,7 +560,11 @@ Definition ok (c : case) (o : obs) : bool :=
   if negb (wf_case c) then match o with OInvalid => true | _ => false end else
   match c, o with
   | CSplit dmax sn sp, OSplit d fr =>
-      if payload_size sp <=? dmax then obytes_eqb d (Some (hv sp)) && dfs_eqb fr []
+      if payload_size sp <=? dmax then
+        match d with
+        | Some x => bytes_eqb (firstn (length (hv sp)) x) (hv sp) && (len x <? len (hv sp) + 4)
+        | None => false
+        end && dfs_eqb fr []
       else match d with
            | None => frags_okb sn dmax (payload_size sp) 1 fr
                      && bytes_eqb (concat (map df_payload fr)) (hv sp)
